@@ -1,10 +1,10 @@
 (** C05 — scoped, grouped and aliased names denote the intended signal; context restored.
-    Statements only; proofs in proofs/ScopeProofs.v and proofs/Balanced.v.
+    Statements only; proofs in proofs/ScopeProofs.v, proofs/GroupsProofs.v and proofs/Balanced.v.
     PARTIAL: `groups` is modelled as the literal prefix/suffix computation the property states
     (Eval.op_groups); that the implementation's regular expression computes it is decided by
     the differential check against a brute-force oracle, not by a theorem. *)
 From WalModel Require Import Eval.
-From WalModel.proofs Require Import Balanced ScopeProofs.
+From WalModel.proofs Require Import Balanced ScopeProofs GroupsProofs.
 Local Open Scope Z_scope.
 
 (** ~n denotes S.n when the captured scope S is a real scope (S immediately followed by n
@@ -70,3 +70,34 @@ Theorem variable_write_read : forall id n v st st',
   env_write id n v st = Ok tt st' -> env_read id n st' = Ok v st'.
 Proof. exact write_then_read. Qed.
 Print Assumptions variable_write_read.
+
+(** (groups s0 s1 ... sn): the result is exactly the set of admissible prefixes p (any prefix without a line break
+    when no scope is captured; otherwise S. followed by text without dot or backslash) such that p+s0 is a signal of
+    the container and p+s1 ... p+sn all exist, the suffixes compared as literal text; it is sorted ascending and has
+    no duplicates.  [has] is what the container answers for the names looked up. *)
+Theorem groups_returns_exactly_the_complete_prefixes : forall ev st cs has,
+  read_global "CS" st = Ok (VStr cs) st ->
+  forall s0 posts, s0 <> ""%string -> (forall s, In s (s0 :: posts) -> alias_of st s = s) -> lookups_ok st cs has s0 posts ->
+  exists l, op_groups ev (map VStr (s0 :: posts)) st = Ok (PL (map VStr l)) st /\
+            NoDup l /\ ascending sltb l /\
+            forall p, In p l <->
+              (admissible cs p = true /\ (exists sig, In sig (cont_signals (st_cont st)) /\ sig = (p ++ s0)%string) /\
+               forall post, In post posts -> has (p ++ post) = true).
+Proof. exact groups_spec. Qed.
+Print Assumptions groups_returns_exactly_the_complete_prefixes.
+
+Theorem admissible_prefix_is : forall cs pre,
+  admissible cs pre = if String.eqb cs "" then negb (scontains_char (ch 10) pre)
+                      else sprefix (cs ++ ".") pre && no_dot_backslash (sdrop (String.length cs + 1) pre).
+Proof. reflexivity. Qed.
+Print Assumptions admissible_prefix_is.
+
+Theorem suffix_is_literal_text : forall suf s p, strip_suffix suf s = Some p <-> s = (p ++ suf)%string.
+Proof. exact strip_suffix_spec. Qed.
+Print Assumptions suffix_is_literal_text.
+
+(** the premises are met: a_valid a_ready b_valid ab_valid ab_ready *)
+Example groups_of_a_container :
+  op_groups (fun _ => fail EOther) [VStr "_valid"; VStr "_ready"] g_state = Ok (PL [VStr "top.a"; VStr "top.ab"]) g_state.
+Proof. exact groups_demo. Qed.
+Print Assumptions groups_of_a_container.
